@@ -2,6 +2,7 @@ package geom
 
 import (
 	"math"
+	"sort"
 )
 
 func newNodeSet(maxULPSize float64, sizeHint int) nodeSet {
@@ -55,5 +56,9 @@ func (s nodeSet) list() []XY {
 	for _, xy := range s.nodes {
 		xys = append(xys, xy)
 	}
+	// Map iteration order is random. The nodes are put into a fixed order so
+	// that the spatial index built from them, and in turn the order in which
+	// equidistant cut points are found, is the same from one call to the next.
+	sort.Slice(xys, func(i, j int) bool { return xys[i].Less(xys[j]) })
 	return xys
 }
